@@ -54,6 +54,8 @@ enum Meth {
 struct World {
     nodes: RefCell<Vec<N>>,
     graphs: RefCell<Vec<Graph<u64, i64, u64>>>,
+    /// thread programs of the conc channel: per thread a list of calls
+    threads: RefCell<Vec<Vec<Vec<String>>>>,
     /// pending script: (invocation index, step tokens), consumed by the next loop/search
     script: RefCell<Vec<(usize, Vec<String>)>>,
 }
@@ -535,7 +537,7 @@ fn exec_graph_step_flavour(w: &World, st: &[String]) -> Option<String> {
 }
 
 pub fn run_case(case: &Case, sink: &mut dyn FnMut(usize, String)) {
-    let w = World { nodes: RefCell::new(Vec::new()), graphs: RefCell::new(Vec::new()), script: RefCell::new(Vec::new()) };
+    let w = World { nodes: RefCell::new(Vec::new()), graphs: RefCell::new(Vec::new()), threads: RefCell::new(Vec::new()), script: RefCell::new(Vec::new()) };
     for (si, st) in case.steps.iter().enumerate() {
         // `only:<flavour>` restricts a step to one flavour (API not common to the twins)
         let mut st: &[String] = st;
@@ -557,6 +559,21 @@ pub fn run_case(case: &Case, sink: &mut dyn FnMut(usize, String)) {
                 "scr" => {
                     w.script.borrow_mut().push((pusize(&st[1]), st[2..].to_vec()));
                     "ok".to_string()
+                }
+                "thr" => {
+                    let t = pusize(&st[1]);
+                    let mut th = w.threads.borrow_mut();
+                    while th.len() <= t {
+                        th.push(Vec::new());
+                    }
+                    th[t].push(st[2..].to_vec());
+                    "ok".to_string()
+                }
+                "sched" => {
+                    let nodes: Vec<N> = w.nodes.borrow().clone();
+                    let progs = w.threads.borrow().clone();
+                    let schedule: Vec<usize> = st[1..].iter().map(|x| pusize(x)).collect();
+                    conc_step!(&nodes, &progs, &schedule)
                 }
                 "srch" => guarded(|| run_search(&w, st)),
                 "loop" => guarded(|| run_loop(&w, st)),
